@@ -68,7 +68,8 @@ def _build(d, maxlen):
         return d.int(-2, L + 3)
     if d.chance(1, 12):
         s = d.choice([12345, 7, 100, 1212, -45, 7.0, 2.5, -0.5, 100.0,
-                      1212.0])
+                      1212.0, 1234567.0, 1000000.0, 123456789012.0, -0.0,
+                      100000.0, 999999.0, 12345678, 0.001, 1234.5])
         L = len(str(s))
     if fn == 'LEFT' or fn == 'RIGHT':
         args = [s] if d.chance(1, 6) else [s, pos()]
@@ -107,7 +108,8 @@ def _build(d, maxlen):
         args = [s, t]
     elif fn in ('CONCAT', 'CONCATENATE', 'AMP'):
         args = [s] + [_text(d, 4) if d.pick(4) else d.choice(
-                          [d.int(0, 99), 7.0, 2.5, 30.0])
+                          [d.int(0, 99), 7.0, 2.5, 30.0, 1234567.0, -0.0,
+                           1e6])
                       if d.pick(3) else bool(d.pick(2))
                       for _ in range(1 + d.pick(3))]
         if d.chance(1, 6):
